@@ -68,14 +68,14 @@ def strategy(ctx):
         steps = [['spawn', 0], ['call', 0, draw(st.integers(0, 2))]]
         live, spawned = [0], 1
         for _ in range(draw(st.integers(6, 45))):
-            k = draw(st.sampled_from(['spawn', 'spawn', 'spawn', 'call', 'call', 'call', 'acall', 'acall', 'exit', 'exit', 'gc',
+            k = draw(st.sampled_from(['spawn', 'spawn', 'spawn', 'call', 'call', 'call', 'acall', 'acall', 'gcall', 'exit', 'exit', 'gc',
                                       'pythread', 'newcb', 'main_call']))
             if k == 'spawn':
                 if spawned < nmax:
                     steps.append(['spawn', spawned])
                     live.append(spawned)
                     spawned += 1
-            elif k in ('call', 'acall'):
+            elif k in ('call', 'acall', 'gcall'):
                 if not live:
                     if spawned < nmax:
                         steps.append(['spawn', spawned]); live.append(spawned); spawned += 1
@@ -148,7 +148,7 @@ def prop(case, ctx):
     for s in case['steps']:
         if s[0] == 'exit':
             exits += 1
-        elif s[0] in ('call', 'acall') and exits >= 2:
+        elif s[0] in ('call', 'acall', 'gcall') and exits >= 2:
             nontriv = True
     ctx.note(case, nontriv, ['nontrivial' if nontriv else 'trivial',
                              'async' if any(s[0] == 'acall' for s in case['steps']) else 'sync-only',
